@@ -73,6 +73,9 @@ PROPS["C11"] = dict(
         9: "an unsanctioned write to a package-level variable is reachable from a consensus entry point",
         10: "an unsanctioned update of a Go map the function did not create (process-local state such as a keeper-level "
             "cache: survives a rolled-back tx, lost at restart) is reachable from a consensus entry point",
+        20: "an unsanctioned in-place operation (cosmossdk.io/math *Mut / Set*) on a value the function did not create "
+            "(parameter, field, map entry, package variable: a LegacyDec shares its big.Int with every copy) is reachable "
+            "from a consensus entry point",
         11: "a second OS process executing the same genesis and history observed different state / results / export",
         12: "a second execution in the same process observed different state / results / export",
         13: "repeated ExportGenesis of one unchanged state produced different bytes",
